@@ -101,6 +101,7 @@ type Conn struct {
 	exports    []*expent
 	exportID   idgen
 	imports    map[importID]*impent
+	importGen  uint64 // generation given to the most recently created importClient
 	embargoes  []*embargo
 	embargoID  idgen
 }
